@@ -36,6 +36,12 @@ type Case struct {
 	Late    bool         `json:"late,omitempty"` // one more call is started while the failure is in progress (interleaving table)
 	Joined  bool         `json:"joined,omitempty"` // a fault frame is written together with the delivered replies: they reach the client in one Read (per piece of Chunk bytes)
 	WBlock  bool         `json:"wblock,omitempty"` // (with Late) the writer goroutine is inside a Write of the late call that the peer does not drain when the failure happens
+	// msize negotiation: the client offers Offer (0: Msize) and the peer grants
+	// min(Offer, Msize) in its Rversion, so Msize is the negotiated msize
+	Offer    uint32 `json:"offer,omitempty"`
+	First    bool   `json:"first,omitempty"`    // no Attach and no prelude: what the peer sends in the scripted part are the very first bytes after its Rversion
+	Announce uint32 `json:"announce,omitempty"` // size announced by the fault frames announce-hdr / announce-part / announce-full (above the negotiated msize)
+	Via      string `json:"via,omitempty"`      // "mount": the client is made by MountConn, and the one outstanding call is the Attach inside it; "early": the outstanding call is Connect itself (see early_test.go)
 	// entry storm (TestPropEntryStorm)
 	Callers int    `json:"callers,omitempty"` // goroutines entering Rpc when the connection fails
 	Rounds  int    `json:"rounds,omitempty"`  // fresh connections failed one after the other
@@ -165,17 +171,106 @@ func checkSuccess(r *result) error {
 	return nil
 }
 
+// offered is the msize the client offers in its Tversion.
+func offered(c *Case) uint32 {
+	if c.Offer == 0 {
+		return c.Msize
+	}
+	return c.Offer
+}
+
+// labelMsize counts the case by what the negotiation did to the client's msize.
+func labelMsize(c *Case, clnt *go9p.Clnt) {
+	switch got := atomic.LoadUint32(&clnt.Msize); {
+	case got < offered(c) && c.First:
+		hx.Label("Rversion lowered the msize, scripted part directly after it")
+	case got < offered(c):
+		hx.Label("Rversion lowered the msize, scripted part after further calls")
+	case c.First:
+		hx.Label("Rversion kept the msize, scripted part directly after it")
+	default:
+		hx.Label("Rversion kept the msize, scripted part after further calls")
+	}
+}
+
+func isConnFail(kind string) bool { return kind == "eof" || kind == "err" || kind == "unmount" }
+
+func hdr7(sz uint32, typ uint8, tag uint16) []byte {
+	b := make([]byte, 7)
+	binary.LittleEndian.PutUint32(b, sz)
+	b[4] = typ
+	binary.LittleEndian.PutUint16(b[5:], tag)
+	return b
+}
+
+// faultFrame builds the bytes of a fault frame (and where to cut them into
+// separate Writes). victim is the tag of a call that is still unanswered (1 if
+// there is none); dup is the reply of an already answered call (nil if none).
+func faultFrame(c *Case, enc func(*ref9p.Msg) []byte, victim uint16, dup *ref9p.Msg) ([]byte, []int, error) {
+	switch c.Fail {
+	case "size0", "size1", "size2", "size3", "size4", "size5", "size6":
+		sz := uint32(c.Fail[4] - '0')
+		return append(hdr7(sz, ref9p.Rclunk, 1), 0, 0, 0, 0), nil, nil
+	case "oversize-hdr":
+		return hdr7(8*c.Msize+1, ref9p.Rread, 1), nil, nil
+	case "oversize-data":
+		return append(hdr7(8*c.Msize+1, ref9p.Rread, 1), make([]byte, 8*c.Msize+64)...), []int{7, 100, int(c.Msize), int(4 * c.Msize)}, nil
+	case "big31":
+		return append(hdr7(1<<31, ref9p.Rread, 1), make([]byte, 64)...), nil, nil
+	case "big32":
+		return append(hdr7(0xFFFFFFFF, ref9p.Rread, 1), make([]byte, 64)...), nil, nil
+	case "badtype":
+		return hdr7(7, 99, 1), nil, nil
+	case "unknowntag":
+		return enc(&ref9p.Msg{Type: ref9p.Rclunk, Tag: 0x7777}), nil, nil
+	case "duptag":
+		// a second reply for a call that was already answered (or, with none answered, an unknown tag)
+		if dup == nil {
+			dup = &ref9p.Msg{Type: ref9p.Rclunk, Tag: 0x7776}
+		}
+		return enc(dup), nil, nil
+	case "announce-hdr", "announce-part", "announce-full":
+		// a frame that announces c.Announce bytes, more than the negotiated
+		// msize allows: its header only; its header and less than it
+		// announces; all of it — an otherwise well-formed Rread (for a call
+		// that is still unanswered) with that much data. The peer then says
+		// nothing more and keeps the connection open.
+		if c.Announce <= c.Msize || c.Announce < 16 || c.Announce > 1<<24 {
+			return nil, nil, fmt.Errorf("harness: announce %d with negotiated msize %d", c.Announce, c.Msize)
+		}
+		b := make([]byte, c.Announce)
+		copy(b, hdr7(c.Announce, ref9p.Rread, victim))
+		binary.LittleEndian.PutUint32(b[7:], c.Announce-11)
+		copy(b[11:], peer.PRF("announce", int(c.Announce-11)))
+		switch c.Fail {
+		case "announce-hdr":
+			b = b[:7]
+		case "announce-part":
+			b = b[:min(int(c.Announce)-1, 7+int(c.Announce%97))]
+		}
+		return b, nil, nil
+	}
+	return nil, nil, fmt.Errorf("harness: fail kind %q", c.Fail)
+}
+
 func run(c *Case) error {
+	switch c.Via {
+	case "mount":
+		return runMount(c)
+	case "early":
+		return runEarly(c)
+	}
 	p := peer.New("c10", c.Msize, true)
 	p.Start(false)
 	ctl := sched.New(c.Holds)
 	ctl.Timeout = 400 * time.Millisecond
 	defer sched.Install(ctl)()
-	clnt, err := go9p.Connect(p.Lib, c.Msize, c.Dotu)
+	clnt, err := go9p.Connect(p.Lib, offered(c), c.Dotu)
 	if err != nil {
 		return fmt.Errorf("Connect: %v", err)
 	}
 	defer clnt.Unmount()
+	labelMsize(c, clnt)
 	// answer helper for the sequential part
 	serveOne := func() error {
 		r := nextReq(p)
@@ -189,7 +284,7 @@ func run(c *Case) error {
 	}
 	user := go9p.OsUsers.Uid2User(0)
 	var root *go9p.Fid
-	{
+	if !c.First {
 		ch := make(chan error, 1)
 		go func() { var e error; root, e = clnt.Attach(nil, user, "c10"); ch <- e }()
 		if err := serveOne(); err != nil {
@@ -200,7 +295,7 @@ func run(c *Case) error {
 		}
 	}
 	mkfid := func() *go9p.Fid { f := clnt.FidAlloc(); f.Iounit = c.Msize - 24; return f }
-	for i := 0; i < c.Prelude; i++ {
+	for i := 0; i < c.Prelude && !c.First; i++ {
 		ch := make(chan *result, 1)
 		f := mkfid()
 		go func() { ch <- doCall(clnt, []string{"stat", "read", "write"}[i%3], f, uint64(i)) }()
@@ -339,13 +434,6 @@ func run(c *Case) error {
 		close(lateDone)
 	}
 	// ---- the failure
-	hdr := func(sz uint32, typ uint8, tag uint16) []byte {
-		b := make([]byte, 7)
-		binary.LittleEndian.PutUint32(b, sz)
-		b[4] = typ
-		binary.LittleEndian.PutUint16(b[5:], tag)
-		return b
-	}
 	switch c.Fail {
 	case "eof":
 		p.End.CloseWrite()
@@ -368,37 +456,25 @@ func run(c *Case) error {
 		}
 		time.Sleep(2 * time.Millisecond)
 		clnt.Unmount()
-	case "size0", "size1", "size2", "size3", "size4", "size5", "size6":
-		sz := uint32(c.Fail[4] - '0')
-		inject(append(hdr(sz, ref9p.Rclunk, 1), 0, 0, 0, 0), nil)
-	case "oversize-hdr":
-		inject(hdr(8*c.Msize+1, ref9p.Rread, 1), nil)
-	case "oversize-data":
-		inject(append(hdr(8*c.Msize+1, ref9p.Rread, 1), make([]byte, 8*c.Msize+64)...), []int{7, 100, int(c.Msize), int(4 * c.Msize)})
-	case "big31":
-		inject(append(hdr(1<<31, ref9p.Rread, 1), make([]byte, 64)...), nil)
-	case "big32":
-		inject(append(hdr(0xFFFFFFFF, ref9p.Rread, 1), make([]byte, 64)...), nil)
-	case "badtype":
-		inject(hdr(7, 99, 1), nil)
-	case "unknowntag":
-		inject(p.Encode(&ref9p.Msg{Type: ref9p.Rclunk, Tag: 0x7777}), nil)
-	case "duptag":
-		// a second reply for a call that was already answered (or, with none answered, an unknown tag)
-		var m *ref9p.Msg
-		for _, i := range order {
-			// (with a late caller the answered call's tag may already be in use
+	default:
+		var dup *ref9p.Msg
+		victim := uint16(1)
+		for k := len(order) - 1; k >= 0; k-- {
+			i := order[k]
+			// (with a late caller an answered call's tag may already be in use
 			// again, and the duplicate would be a reply to the late call)
-			if ends[i] <= cut && !c.Late {
-				m = peer.Answer(reqs[fids[i].Fid])
+			if ends[i] <= cut && !c.Late && dup == nil {
+				dup = peer.Answer(reqs[fids[i].Fid])
+			}
+			if ends[i] > cut {
+				victim = reqs[fids[i].Fid].Tag
 			}
 		}
-		if m == nil {
-			m = &ref9p.Msg{Type: ref9p.Rclunk, Tag: 0x7776}
+		fb, fcuts, err := faultFrame(c, p.Encode, victim, dup)
+		if err != nil {
+			return err
 		}
-		inject(p.Encode(m), nil)
-	default:
-		return fmt.Errorf("harness: fail kind %q", c.Fail)
+		inject(fb, fcuts)
 	}
 	// ---- every outstanding call returns
 	waitAll := make(chan struct{})
@@ -457,6 +533,136 @@ func run(c *Case) error {
 	return nil
 }
 
+// runMount: the client is made by MountConn (Tversion offering c.Offer, then
+// Tattach). The scripted part is the reply to the Tattach — the first bytes
+// after the Rversion: c.Cut bytes of the Rattach, then the failure. MountConn is
+// the outstanding call: it must return, with a client only if the complete
+// Rattach was delivered; calls on that client must then fail.
+func runMount(c *Case) error {
+	if c.Fail == "unmount" || offered(c) < 64 {
+		return fmt.Errorf("harness: mount case with fail %q, offer %d", c.Fail, offered(c))
+	}
+	p := peer.New("c10mount", c.Msize, c.Dotu)
+	p.Start(false)
+	ctl := sched.New(nil)
+	defer sched.Install(ctl)()
+	type mres struct {
+		clnt *go9p.Clnt
+		err  error
+	}
+	mch := make(chan mres, 1)
+	go func() {
+		cl, e := go9p.MountConn(p.Lib, "c10", offered(c)-go9p.IOHDRSZ, go9p.OsUsers.Uid2User(0))
+		mch <- mres{cl, e}
+	}()
+	reqCh := make(chan *peer.Req, 1)
+	go func() { reqCh <- nextReq(p) }()
+	var req *peer.Req
+	select {
+	case req = <-reqCh:
+	case m := <-mch:
+		if m.clnt != nil {
+			m.clnt.Unmount()
+		}
+		return fmt.Errorf("MountConn returned (%v) before the peer saw a Tattach", m.err)
+	}
+	if req == nil {
+		return hang("peer: the Tattach of MountConn did not arrive")
+	}
+	if req.Err != nil || req.Msg.Type != ref9p.Tattach {
+		return fmt.Errorf("client sent a frame that is not a valid Tattach: %v", req.Err)
+	}
+	if p.Msize < offered(c) {
+		hx.Label("Rversion lowered the msize, scripted part directly after it")
+	} else {
+		hx.Label("Rversion kept the msize, scripted part directly after it")
+	}
+	S := p.Encode(peer.Answer(req.Msg))
+	cut := c.Cut
+	if cut < 0 || cut > len(S) {
+		cut = len(S)
+	}
+	isFault := !isConnFail(c.Fail)
+	if isFault && cut < len(S) {
+		cut = 0 // faults are injected on a frame boundary
+	}
+	var cuts []int
+	if c.Chunk > 0 {
+		for x := c.Chunk; x < cut; x += c.Chunk {
+			cuts = append(cuts, x)
+		}
+	}
+	joined := isFault && c.Joined
+	if cut > 0 && !joined {
+		if err := p.Write(S[:cut], cuts); err != nil {
+			return fmt.Errorf("peer write: %v", err)
+		}
+	}
+	switch c.Fail {
+	case "eof":
+		p.End.CloseWrite()
+	case "err":
+		p.End.FailPeer(errors.New("injected transport error"))
+	default:
+		var dup *ref9p.Msg
+		victim := req.Msg.Tag
+		if cut == len(S) {
+			dup, victim = peer.Answer(req.Msg), 1
+		}
+		fb, fcuts, err := faultFrame(c, p.Encode, victim, dup)
+		if err != nil {
+			return err
+		}
+		if joined {
+			for i := range fcuts {
+				fcuts[i] += cut
+			}
+			_ = p.Write(append(append([]byte(nil), S[:cut]...), fb...), append(cuts, fcuts...))
+		} else {
+			_ = p.Write(fb, fcuts)
+		}
+	}
+	m, ok := await(mch)
+	if !ok {
+		return hang("MountConn did not return within %v after the failure (%s at byte %d of the %d of the Rattach)", deadline, c.Fail, cut, len(S))
+	}
+	if m.clnt != nil {
+		defer m.clnt.Unmount()
+	}
+	complete := cut == len(S)
+	switch {
+	case m.err == nil && !complete:
+		return fmt.Errorf("MountConn returned success although only %d of the %d bytes of the Rattach were delivered before the failure (%s)", cut, len(S), c.Fail)
+	case m.err == nil && m.clnt == nil:
+		return fmt.Errorf("MountConn returned neither a client nor an error")
+	case m.err != nil && complete && c.Fail != "duptag":
+		return fmt.Errorf("MountConn: the complete Rattach was received before the failure (%s) but it returned error %v", c.Fail, m.err)
+	}
+	if m.clnt == nil {
+		return nil
+	}
+	if c.Fail == "duptag" && c.After > 0 {
+		// "later" means after the client met the duplicate (see run)
+		if !ctl.WaitSeen("clnt", "clnt.recv.closing", deadline) && !ctl.WaitSeen("clnt", "clnt.recv.closing", grace) {
+			return hang("the client did not react to a second reply for an answered tag within the deadline")
+		}
+	}
+	for k := 0; k < c.After; k++ {
+		ch := make(chan *result, 1)
+		f := m.clnt.FidAlloc()
+		f.Iounit = c.Msize - 24
+		go func() { ch <- doCall(m.clnt, []string{"stat", "read", "write", "open"}[k%4], f, uint64(500+k)) }()
+		r, ok := await(ch)
+		if !ok {
+			return hang("call %d made after the failure (%s) on a client made by MountConn did not return within %v", k, c.Fail, deadline)
+		}
+		if r.err == nil {
+			return fmt.Errorf("call %d made after the failure (%s) returned success", k, c.Fail)
+		}
+	}
+	return nil
+}
+
 func replyLen(p *peer.Peer, m *ref9p.Msg) int { return len(p.Encode(peer.Answer(m))) }
 
 func execute(test string, c *Case) error {
@@ -473,7 +679,13 @@ func execute(test string, c *Case) error {
 	default:
 		hx.Label(fmt.Sprintf("fail=%s", c.Fail))
 		hx.Label(fmt.Sprintf("outstanding=%d", len(c.Calls)))
-		if len(c.Calls) >= 1 || c.Late {
+		if c.Via != "" {
+			hx.Label("client made by " + c.Via)
+		}
+		if c.Announce > 0 {
+			hx.Label("announced size " + announceClass(c))
+		}
+		if len(c.Calls) >= 1 || c.Late || c.Via != "" {
 			b, _ := json.Marshal(c)
 			hx.NonTrivial(b)
 		}
@@ -492,6 +704,46 @@ func execute(test string, c *Case) error {
 }
 
 var faults = []string{"size0", "size1", "size2", "size3", "size4", "size5", "size6", "oversize-hdr", "oversize-data", "big31", "big32", "badtype", "unknowntag", "duptag"}
+
+var announceFaults = []string{"announce-hdr", "announce-part", "announce-full"}
+
+// announceSizes: the announced sizes worth telling apart for a negotiated
+// msize n and an offered msize o (n <= o): just above each, between the two,
+// and around eight times each (the client's receive buffer is 8*msize).
+func announceSizes(n, o uint32) []uint32 {
+	var out []uint32
+	for _, x := range []uint32{n + 1, n + 24, (n + o) / 2, o - 1, o, o + 1, 8 * n, 8*n + 1, 8 * o, 8*o + 1} {
+		dup := x <= n
+		for _, y := range out {
+			dup = dup || x == y
+		}
+		if !dup {
+			out = append(out, x)
+		}
+	}
+	return out
+}
+
+func announceClass(c *Case) string {
+	n, o, a := c.Msize, offered(c), c.Announce
+	switch {
+	case a <= n:
+		return "not above the negotiated msize"
+	case a == n+1 && a <= o:
+		return "negotiated+1, not above the offered msize"
+	case a < o:
+		return "between negotiated and offered msize"
+	case a == o:
+		return "the offered msize (above the negotiated)"
+	case a == o+1:
+		return "offered+1"
+	case a <= 8*n:
+		return "above offered, up to 8*negotiated"
+	case a <= 8*o:
+		return "above offered, up to 8*offered"
+	}
+	return "above 8*offered"
+}
 
 // streamLen computes the length of the reply stream of a session without running it.
 func streamLen(calls []string, dotu bool) int {
@@ -592,6 +844,107 @@ func TestEnumFaultFrames(t *testing.T) {
 	hx.Exhaustive("fault frames {size 0..6, oversize header only / with data, 2^31, 2^32-1, undefined type, unknown tag, reply for a completed tag} x 0..3 outstanding calls x before / after a delivered reply (in a Read of its own, or in the same Read as the fault frame) x 2 dialects")
 }
 
+// msizePairs: negotiated msize, msize the client offers.
+var msizePairs = [][2]uint32{{256, 256}, {256, 8192}, {1024, 1048}, {1024, 8192}}
+
+// TestEnumNegotiated: the peer grants less than (or exactly) what the client
+// offered, and the fault frame is the very first thing it sends after its
+// Rversion (in a Read of its own, or after complete replies in the same
+// Read), or comes after replies delivered before it, or later in the session.
+func TestEnumNegotiated(t *testing.T) {
+	type fk struct {
+		fail     string
+		announce uint32
+	}
+	idx := 0
+	for _, mp := range msizePairs {
+		var fks []fk
+		for _, a := range announceSizes(mp[0], mp[1]) {
+			for _, f := range announceFaults {
+				fks = append(fks, fk{f, a})
+			}
+		}
+		for _, f := range faults {
+			fks = append(fks, fk{f, 0})
+		}
+		for _, f := range fks {
+			for ncalls := 0; ncalls <= 4; ncalls++ {
+				if f.announce == 0 && !hx.Thorough() && ncalls%2 == 1 {
+					continue // (the frames of the older table: fewer sessions in the quick tier)
+				}
+				for pos := 0; pos < 4; pos++ {
+					// 0: first bytes after Rversion; 1: after Attach and a prelude;
+					// 2: first bytes are complete replies, the fault frame in the same Read;
+					// 3: first bytes are complete replies, the fault frame in the next Read
+					if pos >= 2 && ncalls == 0 {
+						continue
+					}
+					idx++
+					if hx.NShards > 1 && idx%hx.NShards != hx.Shard {
+						continue
+					}
+					c := &Case{Dotu: idx%2 == 0, Msize: mp[0], Offer: mp[1], Prelude: idx % 3, Fail: f.fail, Announce: f.announce, After: 1 + idx%2,
+						Calls: []string{"read", "stat", "write", "open"}[:ncalls], Order: [][]int{{}, {0}, {1, 0}, {2, 0, 1}, {0, 3, 1, 2}}[ncalls],
+						First: pos != 1}
+					if pos >= 2 {
+						c.Cut, c.Joined = []int{40, 100, 1000}[idx%3], pos == 2 // rounded down to a frame boundary
+					}
+					if err := execute("negotiated", c); err != nil {
+						hx.Violation("negotiated", c, err.Error())
+						t.Fatalf("%v", err)
+					}
+				}
+			}
+		}
+	}
+	hx.Exhaustive("negotiated/offered msize {256/256, 256/8192, 1024/1048, 1024/8192} x fault frames {header only, part, all of a frame announcing negotiated+1, +24, the middle, offered-1, offered, offered+1, 8*negotiated(+1), 8*offered(+1); the 14 frames of the older table} x 0..4 outstanding calls x {first bytes after Rversion, after Attach and prelude, after complete replies in the same Read, in the next Read}")
+}
+
+// TestEnumMount: MountConn against the scripted peer; the reply stream of its
+// Tattach is cut after every byte (EOF, error), or a fault frame takes the
+// Rattach's place or follows it.
+func TestEnumMount(t *testing.T) {
+	idx := 0
+	L := len(ref9p.Encode(peer.Answer(&ref9p.Msg{Type: ref9p.Tattach}), false))
+	for _, mp := range msizePairs {
+		for _, dotu := range []bool{false, true} {
+			for _, fk := range []string{"eof", "err"} {
+				for cut := 0; cut <= L; cut++ {
+					idx++
+					if hx.NShards > 1 && idx%hx.NShards != hx.Shard {
+						continue
+					}
+					c := &Case{Via: "mount", Dotu: dotu, Msize: mp[0], Offer: mp[1], Cut: cut, Chunk: []int{0, 1, 5}[cut%3], Fail: fk, After: 1 + cut%2}
+					if err := execute("mount", c); err != nil {
+						hx.Violation("mount", c, err.Error())
+						t.Fatalf("%v", err)
+					}
+				}
+			}
+			for _, a := range append([]uint32{0}, announceSizes(mp[0], mp[1])...) {
+				fl := announceFaults
+				if a == 0 {
+					fl = faults
+				}
+				for _, fk := range fl {
+					for pos := 0; pos < 3; pos++ { // instead of the Rattach; after it in the same Read; after it in the next Read
+						idx++
+						if hx.NShards > 1 && idx%hx.NShards != hx.Shard {
+							continue
+						}
+						c := &Case{Via: "mount", Dotu: dotu, Msize: mp[0], Offer: mp[1], Cut: []int{0, -1, -1}[pos], Joined: pos == 1, Fail: fk, Announce: a, After: 2}
+						if err := execute("mount", c); err != nil {
+							hx.Violation("mount", c, err.Error())
+							t.Fatalf("%v", err)
+						}
+					}
+				}
+			}
+		}
+	}
+	hx.Exhaustive("MountConn x negotiated/offered msize (4 pairs) x 2 dialects x {every cut offset of the Rattach x {EOF, error}; fault frames (older table, announced sizes) instead of the Rattach / after it in the same Read / in the next Read}")
+}
+
 var callerPts = []string{"rpcnb.enqueued", "rpcnb.sent"}
 var sendPts = []string{"clnt.send.dequeued", "clnt.send.written"}
 var recvPts = []string{"clnt.recv.closing", "clnt.recv.fanout"}
@@ -684,6 +1037,20 @@ func sessionsDraw(t *testing.T, hung *error) {
 		c.Joined = rapid.Bool().Draw(t, "joined")
 		if rapid.IntRange(0, 5).Draw(t, "blockedwriter") == 0 {
 			c.Late, c.WBlock = true, true
+		}
+		// what the client offers: the negotiated msize (kept), or more (the peer lowers it)
+		c.Offer = rapid.SampledFrom([]uint32{0, 0, c.Msize + 1, c.Msize + 24, 2 * c.Msize, 8 * c.Msize, 65536}).Draw(t, "offer")
+		c.First = rapid.IntRange(0, 2).Draw(t, "first") == 0
+		if rapid.IntRange(0, 2).Draw(t, "announce") == 0 {
+			c.Fail = rapid.SampledFrom(announceFaults).Draw(t, "announcefail")
+			sizes := announceSizes(c.Msize, offered(c))
+			c.Announce = sizes[rapid.IntRange(0, len(sizes)-1).Draw(t, "announcesize")]
+			if offered(c) > c.Msize+1 && rapid.Bool().Draw(t, "between") {
+				c.Announce = rapid.Uint32Range(c.Msize+1, offered(c)).Draw(t, "announcebetween")
+			}
+		}
+		if via := rapid.IntRange(0, 9).Draw(t, "via"); c.Fail != "unmount" && via < 2 {
+			c.Via, c.Late, c.WBlock = []string{"mount", "early"}[via], false, false
 		}
 		if *hung != nil {
 			return
@@ -867,15 +1234,29 @@ func runStaleInFlight(c *Case) error {
 	ctl.Signal("harness", "go")
 	// the client must still be alive: one more call returns (with whatever result)
 	time.Sleep(2 * time.Millisecond)
-	go func() { ch <- doCall(clnt, "stat", clnt.FidAlloc(), 0) }()
-	for {
-		r, _ := p.Next(100 * time.Millisecond)
-		if r == nil {
-			break
+	ch3 := make(chan *result, 1)
+	go func() { ch3 <- doCall(clnt, "stat", clnt.FidAlloc(), 0) }()
+	// the peer answers whatever arrives until that call has returned (however
+	// long the request takes to arrive on a loaded machine)
+	stop := make(chan struct{})
+	defer close(stop)
+	go func() {
+		for {
+			select {
+			case <-stop:
+				return
+			default:
+			}
+			r, ok := p.Next(20 * time.Millisecond)
+			if !ok {
+				return
+			}
+			if r != nil && r.Err == nil {
+				_ = p.Write(p.Encode(peer.Answer(r.Msg)), nil)
+			}
 		}
-		_ = p.Write(p.Encode(peer.Answer(r.Msg)), nil)
-	}
-	if _, ok := await(ch); !ok {
+	}()
+	if _, ok := await(ch3); !ok {
 		return hang("a call made after a stale reply did not return")
 	}
 	return nil
